@@ -15,7 +15,8 @@ Pool == << Rom(<<Ipa(A)>>, 1, FALSE), Rom(<<Ipa(T), Ipa(A)>>, 2, FALSE), Rom(<<M
            Rom(<<WithMods(Grp(1), <<<<"s", "sec.stress", FALSE>>>>)>>, 3, TRUE), Rom(<<WithMods(Ipa(A), <<<<"s", "stress", FALSE>>>>)>>, 2, FALSE),
            Rom(<<Mx(<<FPos(F_SYLL), <<"s", "sec.stress", TRUE>>>>)>>, 1, TRUE), Rom(<<WithMods(Grp(1), <<<<"s", "stress", TRUE>>>>), Grp(9)>>, 2, FALSE),
            \* tone modifiers: the romaniser uses up the tone of the syllable it fires in - and of no other
-           Rom(<<WithMods(Ipa(A), <<<<"t", 5>>>>)>>, 2, FALSE), Rom(<<WithMods(Grp(9), <<<<"t", 51>>>>)>>, 1, TRUE), Rom(<<Ipa(T), WithMods(Ipa(I), <<<<"t", 5>>>>)>>, 3, FALSE) >>
+           Rom(<<WithMods(Ipa(A), <<<<"t", 5>>>>)>>, 2, FALSE), Rom(<<WithMods(Grp(9), <<<<"t", 51>>>>)>>, 1, TRUE), Rom(<<Ipa(T), WithMods(Ipa(I), <<<<"t", 5>>>>)>>, 3, FALSE),
+           Rom(<<WithMods(Ipa(A), <<<<"t", 5>>>>), Ipa(T)>>, 1, FALSE), Rom(<<WithMods(Grp(1), <<<<"t", 51>>>>), Ipa(I), Ipa(SS)>>, 2, TRUE) >>     \* the tone is named before the last element: a partial match must leave it alone
 NP == Len(Pool)
 RECURSIVE SylOf(_, _)
 SylOf(bs, i) == IF i = 1 THEN 1 ELSE SylOf(bs, i - 1) + (IF bs[i - 1] THEN 1 ELSE 0)
